@@ -227,6 +227,9 @@ def canon_result(opname, subname, r, maxalloc=0):
         return T("panic", [b"alloc"]) if r.args and r.args[0] == b"alloc" else T("panic", [])
     if r.name == "err":
         return r
+    if r.name == "model_error" or (r.name == "harness_error" and r.args and bytes(r.args[0]).startswith(b"harness: no ")):
+        # the op addresses an object (client / consumer / producer) that does not exist in this state, on either side
+        return T("no_object")
     if r.name != "ok":
         return r
     v = r.args[0]
